@@ -174,7 +174,8 @@ def quick(sp, explicit=False, tabular=True, shuffle_rng=None):
         actions=lambda s: _acts(sp, s),
         initial_state_dist=make_dist(sp.init, sp.init_kind, sp),
         is_absorbing=lambda s: _flag(sp, s),
-        discount_rate=sp.gamma,
+        # an undiscounted model written the way its author would: discount_rate left at its documented default of 1.0
+        **({} if (sp.gamma == 1.0 and sp.meta.get("rely_on_defaults")) else dict(discount_rate=sp.gamma)),
     )
     if explicit:
         states = list(sp.states)
